@@ -51,7 +51,7 @@ def lookup(f):
 
 def is_concrete(v):
     if isinstance(v, (z3.ExprRef, Ref, Snapshot, SymObj, SymSeq, Choice, SymEnum, BitSet, FlagSet, TailSeq, SymMapping,
-                      Closure, Func, BoundMethod, BuiltinMethod, Partial, Opaque, Exc)):
+                      Closure, Func, BoundMethod, BuiltinMethod, Partial, Opaque, Exc, AbsSeq)):
         return False
     if isinstance(v, tuple):
         return all(is_concrete(x) for x in v)
